@@ -127,6 +127,11 @@ def put_facts(sb, world):
         full = ra if ra.startswith(b"/") else os.path.join(_real(sb, world["cwd"]), ra)
         it["lexists"] = os.path.lexists(full) if a != b"" else False
         it["accessible"] = os.path.exists(full) if a != b"" else False
+        # a symbolic link that does not lead to a directory, written with trailing slashes: lstat("x/") follows x and wants
+        # a directory there, so for the kernel the spelling names nothing - for the property it still names the link
+        bare = full.rstrip(b"/")
+        it["slash_link"] = _model(sb, os.path.join(os.path.realpath(os.path.dirname(bare)), os.path.basename(bare))) \
+            if (a.endswith(b"/") and bare and os.path.islink(bare) and not os.path.lexists(full)) else None
         items.append(it)
     facts = {"items": items,
              "dirs": [{"dir": _model(sb, d["dir"]), "base": d["base"], "kind": d["kind"], "parentOk": d["parentOk"],
@@ -274,6 +279,12 @@ def evaluate(world, drv, plan=None, model_faults=None, oracles=("C01", "C04", "C
                                      "expectAbs": hx(it["entry"])} for it in links]))
             res["oracle"]["C18"] = r
             res["tags"].append("c18:links")
+    if "C18" in oracles and obs.get("exc") is None:
+        st_after = snap_to_state(obs["after"])
+        kept = [it["slash_link"] for it in facts["items"] if it.get("slash_link") and st_after.get(it["slash_link"], ("",))[0] == "l"]
+        if kept and world.get("opts", {}).get("mode") != "interactive":
+            res["oracle"]["C18-slash"] = {"ok": False, "verdict": "C18.linkWithTrailingSlashNotTrashed %r" % kept[:2]}
+            res["tags"].append("c18:slash-link-refused")
     if "C05" in oracles and want_states:
         entries = [hx(it["entry"]) for it in facts["items"] if it["entry"] is not None]
         bad = None
